@@ -15,7 +15,6 @@ import (
 	"github.com/evanphx/json-patch/v5/verifharness/refenc"
 )
 
-
 // rawHTML returns the first raw <, >, &, U+2028 or U+2029 in b, if any.
 func rawHTML(b []byte) string {
 	if i := strings.IndexAny(string(b), "<>&"); i >= 0 {
